@@ -111,11 +111,30 @@ func cmdFunc(args []string) {
 func cmdList(args []string) {
 	fs := flag.NewFlagSet("list", flag.ExitOnError)
 	repo := fs.String("repo", "/repo", "repository root")
+	all := fs.Bool("all", false, "list every repository function (contract or not)")
 	fs.Parse(args)
 	w, err := loadWorld(*repo, nil)
 	if err != nil {
 		fmt.Fprintln(os.Stderr, err)
 		os.Exit(2)
+	}
+	if *all {
+		var ks []string
+		for k, fn := range w.fnByKey {
+			if fn.Pkg == nil || !strings.HasPrefix(fn.Pkg.Pkg.Path(), "github.com/free5gc/go-upf/") || fn.Synthetic != "" || len(fn.Blocks) == 0 {
+				continue
+			}
+			ks = append(ks, k)
+		}
+		sort.Strings(ks)
+		for _, k := range ks {
+			has := "-"
+			if fc := w.contracts[k]; fc != nil {
+				has = "contract"
+			}
+			fmt.Printf("%s %s %s\n", k, has, w.fset.Position(w.fnByKey[k].Pos()).Filename)
+		}
+		return
 	}
 	var keys []string
 	for k := range w.contracts {
